@@ -352,7 +352,111 @@ func c13Jobs(tier string) []*SeqJob {
 		j.Replay = func(ops []string) (string, string) { c, d, _, _ := exec(opIndex(alphabet, ops)); return c, d }
 		jobs = append(jobs, j)
 	}
+	jobs = append(jobs, c13ManyTagSetsJob(tier))
 	return jobs
+}
+
+// c13ManyTagSetsJob: N distinct tag sets are allocated on one reporter (N above every pool and cache size the
+// reporter has), later ones longer than earlier ones; then the FIRST handles are reported. Each value must come
+// out with the tags it was allocated with, and no datagram may exceed the packet limit.
+func c13ManyTagSetsJob(tier string) *SeqJob {
+	run := func(kind string, n int) (string, string, int) {
+		s := newFastSink()
+		defer s.close()
+		var rcl, rdet string
+		const limit = 1440
+		caseHorizon = 50000000
+		defer func() { caseHorizon = 0 }()
+		ccl, cdet := controlledCase(0, func() {
+			r, err := m3.NewReporter(m3.Options{HostPorts: []string{s.addr}, Service: "svc", Env: "test", CommonTags: c13CommonTags(0), Protocol: m3Proto(kind), MaxQueueSize: 256, MaxPacketSizeBytes: limit})
+			if err != nil {
+				rcl, rdet = "new-reporter", err.Error()
+				return
+			}
+			hs := make([]tally.CachedCount, 0, n)
+			for i := 0; i < n; i++ {
+				tags := map[string]string{"id": fmt.Sprint(i)}
+				if i >= 64 {
+					tags["later-and-longer"] = strings.Repeat("x", 40)
+				}
+				hs = append(hs, r.AllocateCounter("m", tags))
+			}
+			for i := 0; i < 64 && i < n; i++ {
+				hs[i].ReportCount(int64(i + 1))
+			}
+			if err := r.Close(); err != nil {
+				rcl, rdet = "close-error", err.Error()
+			}
+		})
+		if ccl != "" {
+			return ccl, cdet, n
+		}
+		if rcl != "" {
+			return rcl, rdet, n
+		}
+		seen := map[int64]bool{}
+		for i, dg := range s.readAvailable(nil) {
+			if len(dg) > limit {
+				return "datagram-exceeds-max-packet-size", fmt.Sprintf("[%s] after %d tag sets had been allocated: datagram %d has %d bytes, limit %d", kind, n, i, len(dg), limit), n
+			}
+			msg, err := decodeMessage(kind, dg)
+			if err != nil {
+				return "datagram-does-not-decode", err.Error(), n
+			}
+			for _, m := range msg.Batch.Metrics {
+				if m.Name != "m" {
+					continue
+				}
+				want := fmt.Sprint(m.Value.Count - 1)
+				if len(m.Tags) != 1 || m.Tags[0].Name != "id" || m.Tags[0].Value != want {
+					return "delivered-with-wrong-tags", fmt.Sprintf("[%s] %d tag sets allocated on one reporter: the value reported through the handle allocated with {id:%s} arrived with tags %v", kind, n, want, m.Tags), n
+				}
+				seen[m.Value.Count] = true
+			}
+		}
+		for i := 0; i < 64 && i < n; i++ {
+			if !seen[int64(i+1)] {
+				return "reported-values-not-delivered-exactly-once", fmt.Sprintf("[%s] value %d did not arrive", kind, i+1), n
+			}
+		}
+		return "", "", n
+	}
+	sizes := []int{10, 1000, 4090, 4200, 5000}
+	if tier == "thorough" {
+		sizes = append(sizes, 8300, 10000, 20000)
+	}
+	j := &SeqJob{Property: "C13", Name: "many-tag-sets-on-one-reporter", Controlled: true, Shards: 2}
+	j.Run = func(ctx *SeqCtx) {
+		k := 0
+		for _, kind := range []string{"compact", "binary"} {
+			for _, n := range sizes {
+				k++
+				if !ctx.Mine(k) {
+					continue
+				}
+				kind, n := kind, n
+				steps := 0
+				cl, det := guard(func() (string, string) { a, b, s := run(kind, n); steps = s; return a, b })
+				ops := []string{kind, fmt.Sprint(n)}
+				ctx.Case(steps, true, func() string { return fmt.Sprint("many tag sets ", ops) })
+				ctx.State(fmt.Sprint(ops))
+				if cl != "" {
+					ctx.Fail(cl, det, ops)
+					if ctx.viol != nil {
+						return
+					}
+				}
+			}
+		}
+		ctx.Alphabet(fmt.Sprintf("numbers of distinct tag sets on one reporter %v", sizes))
+		ctx.DepthDone(1)
+	}
+	j.Replay = func(ops []string) (string, string) {
+		var n int
+		fmt.Sscan(ops[1], &n)
+		return guard(func() (string, string) { a, b, _ := run(ops[0], n); return a, b })
+	}
+	return j
 }
 
 var _ = m3thrift.MetricType_COUNTER
